@@ -86,6 +86,7 @@ var (
 	FontErr  error
 
 	sharedFace *canvas.FontFace
+	cffFamily  *canvas.FontFamily // a font with CFF outlines (.otf), shared by every PDF text job
 )
 
 // Fonts loads the shared font family once (the property allows sharing a loaded font between goroutines).
@@ -97,6 +98,10 @@ func Fonts() {
 			return
 		}
 		sharedFace = family.Face(10.0, canvas.Black)
+		cffFamily = canvas.NewFontFamily("garamond")
+		if err := cffFamily.LoadFontFile("/repo/resources/EBGaramond12-Regular.otf", canvas.FontRegular); err != nil {
+			cffFamily = nil
+		}
 		fontData, FontErr = os.ReadFile("/repo/resources/DejaVuSerif.ttf")
 		if FontErr == nil {
 			nameless = stripNames(fontData)
@@ -312,6 +317,31 @@ func Jobs(seed int64, n int, kinds string) []Job {
 					h := fnv.New64a()
 					h.Write(out)
 					return fmt.Sprintf("%d:%x", len(out), h.Sum64())
+				}}
+			})
+		}
+		if strings.Contains(kinds, "s") && cffFamily != nil {
+			// text in a shared loaded CFF font written as PDF with font subsetting (the writer must not touch the shared font)
+			words := []string{"Quartz", "glyph", "job", "vex", "nymph", "waltz"}
+			fam = append(fam, func() Job {
+				txt := words[r.Intn(len(words))] + " " + words[r.Intn(len(words))]
+				return Job{fmt.Sprintf("pdftext/%d", s), func() string {
+					c := canvas.New(60, 20)
+					ctx := canvas.NewContext(c)
+					ctx.DrawText(2, 10, canvas.NewTextLine(cffFamily.Face(12.0, canvas.Black), txt, canvas.Left))
+					var buf bytes.Buffer
+					w := pdf.New(&buf, 60, 20, nil)
+					c.RenderTo(w)
+					w.Close()
+					// the embedded font program carries a modification time stamp inside a compressed stream, so the bytes are
+					// not comparable between calls; what must not change is that the font can still be subsetted (a document
+					// with the whole font embedded is two orders of magnitude larger) and converted to paths
+					size := "subsetted"
+					if buf.Len() > 40000 {
+						size = fmt.Sprintf("not-subsetted(%d bytes)", buf.Len())
+					}
+					_, width, err := cffFamily.Face(12.0, canvas.Black).ToPath(txt)
+					return fmt.Sprintf("%s:%v:%.6f", size, err, width)
 				}}
 			})
 		}
